@@ -124,22 +124,27 @@ def complete_header(x, recs, p, ids_idx, cds_end, relaxed=False):
     return None
 
 GAPS = collections.Counter()
-# C03-superfluous-id is the over-reporting of a SECOND ALLELE of a bubble position the peptide does carry: the
-# superfluous record overlaps or abuts (0 nt) a named record that stays in the witness (measured on the unchanged
-# tree, 10 000 core runs = 176 659 entries: 114 of 116 hits); twice the record sat in the codon directly in front
-# of the peptide (2 nt before its first codon).  A superfluous record anywhere else (a frameshift leaked from another
-# branch: seeded C03-3) is NOT this finding.  SUPERFLUOUS_NAMED_BOUND: nt to the nearest kept named record;
-# SUPERFLUOUS_MAX_GAP: nt outside the peptide (one codon).
-SUPERFLUOUS_MAX_GAP = int(os.environ.get('C03_SUPERFLUOUS_MAX_GAP', '3'))
-SUPERFLUOUS_NAMED_BOUND = int(os.environ.get('C03_SUPERFLUOUS_NAMED_BOUND', '0'))
+# C03-superfluous-id is the over-reporting of a record of the peptide's own variant bubble that its haplotype does
+# not carry.  Two measured shapes (unchanged tree; 10 000 core runs = 176 659 entries + the thorough tier):
+#   (i)  ANOTHER ALLELE OF THE SAME CODON: the superfluous record overlaps, abuts or lies 1 nt from a named record
+#        that stays in the witness (114 of 116 hits at 0 nt; 1 nt = two SNVs on the 1st and 3rd base of one codon);
+#   (ii) A RECORD IN THE CLEAVAGE CONTEXT: it lies OUTSIDE the peptide, at most two codons in front of / behind it
+#        (2 nt four times; 5 nt once: MNV on the former stop codon in front of a read-through peptide).
+# SUPERFLUOUS_NAMED_BOUND = 1 nt (i), SUPERFLUOUS_MAX_GAP = 6 nt (ii).  A superfluous record anywhere else - inside the
+# peptide's stretch but clear of the named records, or further away: a frameshift leaked from another branch, seeded
+# C03-3 - is NOT this finding.  (Tried and rejected: 6 nt for (i) - quiet as well, but leaves 2 instead of 10
+# violations of the quick tier under seeded C03-3.)
+SUPERFLUOUS_MAX_GAP = int(os.environ.get('C03_SUPERFLUOUS_MAX_GAP', '6'))
+SUPERFLUOUS_NAMED_BOUND = int(os.environ.get('C03_SUPERFLUOUS_NAMED_BOUND', '1'))
 
 def removed_gap(recs, ids_idx, S, full, wits, log=None):
     """how far a REMOVED record of a repair (named, not in S) is from the places where the engine is known to
     over-report; worst case over the removed records of
-       0      it overlaps or abuts a named record that STAYS in the witness (alleles of one bubble position)
-       1..3   it lies OUTSIDE the peptide, at most one codon in front of / behind it (cleavage-site context)
+       0      it overlaps, abuts or lies within SUPERFLUOUS_NAMED_BOUND nt of a named record that STAYS in the
+              witness (alleles of one variant bubble)
+       1..6   it lies OUTSIDE the peptide, at most two codons in front of / behind it (cleavage context)
        50     it lies inside the stretch the peptide is translated from, clear of every other named record
-       d>3    its distance to the nearest other named record / to the peptide"""
+       d>6    its distance to the nearest other named record / to the peptide"""
     spans = [(w['start'] + 3 * w['a'], w['start'] + 3 * w['b'])
              for w in wits if sorted(recs.index(r) for r in w['H']) == full]
     H = [recs[i] for i in full]
@@ -151,16 +156,16 @@ def removed_gap(recs, ids_idx, S, full, wits, log=None):
         g = min([max(0, recs[k]['s'] - r['e'], r['s'] - recs[k]['e']) for k in S] or [10 ** 6])
         raw = g
         if g <= SUPERFLUOUS_NAMED_BOUND:
-            g = 0          # overlaps / abuts a named record that STAYS in the witness
+            g = 0          # same variant bubble as a named record that STAYS in the witness
         if g > 0:
             hs, he = SG.shift(H, r['s']), SG.shift(H, r['e'])
             ds = []
             for lo, hi in spans:
                 d = max(0, lo - he, hs - hi)
                 ds.append(d if d > 0 else 50)
-            g = min([g if g > 3 else 4] + ds)
+            g = min([max(g, SUPERFLUOUS_MAX_GAP + 1)] + ds)     # named distance alone never explains beyond its bound
         if log is not None:
-            log['named:%d' % min(raw, 99) if raw <= SUPERFLUOUS_NAMED_BOUND else ('peptide-adjacent:%d' % g if g <= 3 else 'unexplained(named:%d)' % min(raw, 99))] += 1
+            log['named:%d' % min(raw, 99) if raw <= SUPERFLUOUS_NAMED_BOUND else ('peptide-adjacent:%d' % g if g <= SUPERFLUOUS_MAX_GAP else 'unexplained(named:%d)' % min(raw, 99))] += 1
         worst = max(worst, g)
     return worst
 
@@ -261,10 +266,23 @@ def classify_entry(ev, tx_id, x, recs, p, ids_idx):
 
 def classify_alt_entry(ev, tx_id, x, recs, p, ids_idx, sect, w2f):
     """same mechanisms for an entry that also names generated SECT / W2F identifiers; sect / w2f = the POSITIONS
-    they name (witness_ok_pos).  Only the named records are repaired: a generated identifier that names the
+    they name (witness_ok_pos).  Entries without a SECT id are classified through their base entry; the rest of this
+    function handles entries with a SECT id (coding backbones).  Only the named records are repaired: a generated identifier that names the
     wrong Sec codon / the wrong residues has no repair and stays a violation."""
     def wit(sets):
         return O.call('cv_witness_pos', [x, [[p, sorted(sb), sect, w2f] for sb in sets]])
+    if not sect:
+        # W2F ids only (always so on non-coding backbones, which carry no Sec): the label is the label of the base
+        # peptide plus the W2F ids (VariantPeptideDict.translational_modification appends them), so the entry inherits
+        # the finding of its BASE entry: b = p with W restored at exactly the named residues, same records, the full
+        # classifier of plain entries (incl. the peptide-adjacent clause of C03-superfluous-id, D14 / D14b).  When the
+        # base entry IS a witness the records are fine and the generated ids themselves are wrong: violation.
+        if not w2f or any(p[i] != 'F' for i in w2f):
+            return None
+        b = ''.join('W' if i in w2f else ch for i, ch in enumerate(p))
+        if O.call('cv_witness', [x, [[b, ids_idx]]])[0]:
+            return None
+        return classify_entry(ev, tx_id, x, recs, b, ids_idx)
     if len(ids_idx) > 1:
         subs = [list(cb) for n in range(1, len(ids_idx)) for cb in itertools.combinations(ids_idx, n)
                 if _pairwise_ok([recs[i] for i in cb])]
@@ -281,6 +299,7 @@ def classify_alt_entry(ev, tx_id, x, recs, p, ids_idx, sect, w2f):
                     ds = [max(0, recs[k]['s'] - r['e'], r['s'] - recs[k]['e']) for k in sb]
                     ds += [max(0, sp - r['e'], r['s'] - (sp + 3)) for sp in sect]
                     g = min(ds) if ds else 10 ** 6
+                    GAPS['alt-named:%d' % min(g, 99)] += 1
                     worst = max(worst, 0 if g <= SUPERFLUOUS_NAMED_BOUND else g)
                 return worst
             gap = min(gap_of(sb) for sb in hits)
@@ -459,7 +478,7 @@ def run(ctx):
                 rule='one evaluation = one (peptide, header entry) pair checked with the proved decider witness_ok (entries with generated SECT / W2F identifiers: witness_ok_pos, position exact); '
                      'non-trivial = number of runs whose FASTA has at least one entry',
                 samples=samples, distribution=CK.dist_of(cases), stats=dict(stats),
-                known_finding_counts=dict(cnt), engine_tied_by='correspondence', stream_wall_s=stream_wall, violations=keep,
+                known_finding_counts=dict(cnt), superfluous_id_distance_histogram={str(k): v for k, v in sorted(GAPS.items(), key=lambda kv: str(kv[0])) if isinstance(k, str)}, engine_tied_by='correspondence', stream_wall_s=stream_wall, violations=keep,
                 assumptions=['records are SNV / MNV / INDEL on linear transcripts; fusion / circRNA backbones are not generated here (property partial for them)',
                              'SECT-n is mapped to its Sec codon with the generator\'s ground truth (gene -> transcript), W2F-i is read as the 1-based residue index of the printed peptide (measured: 2 699 / 2 699 entries)',
                              'the peptide table\'s header column is not read (the FASTA is assembled from it by the tool itself)'],
